@@ -433,7 +433,46 @@ def _syntax_transformers():
                     call_stmt.value.args.append(ast.Name(id=n, ctx=ast.Load()))
             return helper, as_method
 
-    return {"extract-method: the first run of statements with branches / loops of every function moved into a helper": ExtractCompound,
+    class AliasAttr(ast.NodeTransformer):
+        """bhe = self.ghe.bhe at the top of a method, then bhe.x instead of self.ghe.bhe.x: for two-part prefixes self.A that the
+        method reads at least three times through longer chains and never assigns, in methods that call nothing on self (so that
+        nothing can rebind self.A while the alias is alive)"""
+
+        def visit_FunctionDef(self, n):
+            self.generic_visit(n)
+            if not n.args.args or n.args.args[0].arg != "self" or n.name == "__init__":
+                return n
+            for x in ast.walk(n):
+                if x is not n and isinstance(x, (ast.FunctionDef, ast.Lambda)):
+                    return n
+                if isinstance(x, ast.Call):
+                    f = x.func
+                    if isinstance(f, ast.Attribute) and isinstance(f.value, ast.Name) and f.value.id == "self":
+                        return n
+                    if any(isinstance(a, ast.Name) and a.id == "self" for a in x.args):
+                        return n
+            uses = {}
+            stored = set()
+            for x in ast.walk(n):
+                if isinstance(x, ast.Attribute) and isinstance(x.value, ast.Attribute) and isinstance(x.value.value, ast.Name) and x.value.value.id == "self":
+                    uses.setdefault(x.value.attr, []).append(x)
+                if isinstance(x, ast.Attribute) and isinstance(x.value, ast.Name) and x.value.id == "self" and isinstance(x.ctx, (ast.Store, ast.Del)):
+                    stored.add(x.attr)
+            names = {y.id for y in ast.walk(n) if isinstance(y, ast.Name)} | {a.arg for a in n.args.args}
+            pre = []
+            for a, us in sorted(uses.items()):
+                if a in stored or len(us) < 3 or ("al_" + a) in names:
+                    continue
+                for u in us:
+                    u.value = ast.copy_location(ast.Name(id="al_" + a, ctx=ast.Load()), u.value)
+                pre.append(ast.Assign(targets=[ast.Name(id="al_" + a, ctx=ast.Store())], value=ast.Attribute(value=ast.Name(id="self", ctx=ast.Load()), attr=a, ctx=ast.Load())))
+            if pre:
+                k = 1 if n.body and isinstance(n.body[0], ast.Expr) and isinstance(n.body[0].value, ast.Constant) else 0
+                n.body = n.body[:k] + pre + n.body[k:]
+            return n
+
+    return {"attribute prefixes read through a local alias (al_x = self.x)": AliasAttr,
+            "extract-method: the first run of statements with branches / loops of every function moved into a helper": ExtractCompound,
             "extract-method: the first straight-line run of every function moved into a helper": ExtractBlocks,
             "extract-method, the helper written with its own parameter and local names": ExtractBlocksRenamed,
             "return / raise / continue followed by code rewritten with an else": ElseAbsorb, "conditional expressions written as if / else statements": IfExpToIf,
